@@ -40,11 +40,14 @@ def run(ck):
         tj = skip_copies(e["args"][0]) if is_call(e, "QString::fromUtf8") and e.get("args") else None
         if tj is None or not is_call(tj, "QJsonDocument::toJson"):
             return None
-        d = skip_copies(tj.get("obj"))
+        d = skip_copies(deref_local(fn, tj.get("obj")))
         while isinstance(d, dict) and d.get("k") == "cast":
             d = skip_copies(d.get("e"))
-        if isinstance(d, dict) and d.get("k") == "construct" and d.get("class") == "QJsonDocument" and d.get("args") and skip_copies(d["args"][0]).get("k") == "ref":
-            return tj, d
+        if isinstance(d, dict) and d.get("k") == "construct" and d.get("class") == "QJsonDocument" and d.get("args"):
+            o = skip_copies(deref_local(fn, d["args"][0]))
+            if isinstance(o, dict) and o.get("k") == "ref":
+                d = dict(d, args=[o] + list(d["args"][1:]))   # the object local, possibly returned by a spliced helper
+                return tj, d
         return None
     shaped = [(r, delegation(r)) for r in rs]
     bad = [r for r, d in shaped if d is None]
@@ -72,6 +75,10 @@ def run(ck):
                 continue
             mode = tj["args"][0] if tj.get("args") else None
             leafm = resolve_value(mode, atom_eq(isc, val), fn)
+            if isinstance(leafm, dict) and skip_copies(leafm).get("k") == "cond":
+                cv_ = eval_cond(skip_copies(leafm).get("cond"), atom_eq(isc, val), fn)
+                if cv_ is not None:
+                    leafm = resolve_value(skip_copies(leafm).get("t") if cv_ else skip_copies(leafm).get("f"), atom_eq(isc, val), fn)
             got = const_int(leafm)
             if leafm is not None and skip_copies(leafm).get("k") == "cond":
                 got = None
